@@ -112,6 +112,8 @@ class Ctx:
                 for blk, t in b.calls():
                     cn = callee_name(t)
                     if cn in (N.GLOBAL + '::new', N.THREAD + '::new', N.ASYNC + '::new'):
+                        if not t.get('exp'):
+                            break  # a cache built by hand-written code (examples, tests), not by the macro
                         # statics passed must belong to this body
                         owns = False
                         for sid, st in c.statics.items():
